@@ -1,5 +1,5 @@
 """Unit DS: descriptor.rs - the nine set_/get_ pairs against a map view of the store (C18)."""
-from vx.splice import FnSpec as F, Ins, Inv
+from vx.splice import FnSpec as F, Ins, Inv, LetType
 from vx.unit import Unit, Src, Ghost
 import os
 _d = os.path.dirname(__file__)
@@ -24,14 +24,32 @@ for (nm, kind, var, named, dflt) in KINDS:
     FNS.append(F('DescriptorManager::get_%s_descriptor' % nm, props=['C18'],
         spec=getter_spec(nm, kind, var, named, dflt),
         ops=[Ins('entry', '', "        proof { broadcast use axiom_unary_postfix_default; }")]))
+P = "    ensures r@ == "
+DEFAULTS = [
+  F('default_unary_descriptor', props=['C18'], spec=P + "op@ + rhs@,  // @C18 default.unary"),
+  F('default_binary_descriptor', props=['C18'], spec=P + "lhs@ + op@ + rhs@,  // @C18 default.binary"),
+  F('default_postfix_descriptor', props=['C18'], spec=P + "lhs@ + op@,  // @C18 default.postfix"),
+  F('default_ternary_descriptor', props=['C18'], spec=P + 'condition@ + "?"@ + lhs@ + ":"@ + rhs@,  // @C18 default.ternary'),
+  F('default_function_descriptor', props=['C18'], spec=P + 'name@ + "("@ + join_spec(strs(params@), ","@) + ")"@,  // @C18 default.function'),
+  F('default_reference_descriptor', props=['C18'], spec=P + "name@,  // @C18 default.reference"),
+  F('default_list_descriptor', props=['C18'], spec=P + '"["@ + join_spec(strs(params@), ","@) + "]"@,  // @C18 default.list',
+    ops=[Ins('entry', '', '    proof { broadcast use axiom_str_to_string; }')]),
+  F('default_map_descriptor', props=['C18'], spec=P + '"{"@ + join_spec(entries(m@), ","@) + "}"@,  // @C18 default.map',
+    ops=[Ins('entry', '', '    proof { broadcast use axiom_str_to_string; }'), LetType('let:tmp', 'Vec<String>'),
+         Inv('loop#0', """        invariant tmp@.len() == it.index@, forall|j: int| 0 <= j < it.index@ ==> (#[trigger] tmp@[j])@ == m@[j].0@ + ":"@ + m@[j].1@,""", iter_name='it', bind='kv'),
+         Ins('tail', 'before', 'proof { assert(strs(tmp@) =~= entries(m@)); }')]),
+  F('default_chain_descriptor', props=['C18'], spec=P + 'join_spec(strs(params@), ";"@),  // @C18 default.chain'),
+]
+FNS = FNS + DEFAULTS
 KEYS = set(f.key for f in FNS)
 UNIT = Unit('ds', [
     Ghost(_t('ds_prelude.rs'), name='prelude'),
     Src('descriptor.rs', fns=FNS, props=['C18'],
-        keep_items=lambda kind, name: kind == 'enum' or (kind == 'impl' and name == 'DescriptorManager'),
+        keep_items=lambda kind, name: kind == 'enum' or (kind == 'impl' and name == 'DescriptorManager') or (kind == 'fn' and name.startswith('default_')),
+        string_concat=True,
         keep_fns=lambda k: k in KEYS,
         item_attr={'DescriptorKey': '#[verifier::external_derive]', 'Descriptor': '#[verifier::external_derive]'},
-        regex_rules=[('rule25_visibility', r'(?m)^enum (DescriptorKey|Descriptor)\b', r'pub enum \1'), ('rule25_visibility', r'(?m)^(    )fn (set|get)\(', r'\1pub fn \2('), ('rule24_default_descriptor', r'Arc::new\(default_(\w+)_descriptor\)', r'vx_default_descriptor_\1()')],
-        footer=_t('ds_ghost.rs')),
+        regex_rules=[('rule28_slice_join', r'&(\w+)\.join\(', r'&vx_join(&\1, '), ('rule28_slice_join', r'(?m)^(\s+)(\w+)\.join\(', r'\1vx_join(&\2, '), ('rule25_visibility', r'(?m)^enum (DescriptorKey|Descriptor)\b', r'pub enum \1'), ('rule25_visibility', r'(?m)^(    )fn (set|get)\(', r'\1pub fn \2('), ('rule24_default_descriptor', r'Arc::new\(default_(\w+)_descriptor\)', r'vx_default_descriptor_\1()')],
+        footer=_t('ds_ghost.rs') + _t('ds_defaults.rs') + 'pub broadcast axiom fn axiom_str_to_string(s: &str, r: String) ensures #[trigger] to_string_from_display_ensures(s, r) ==> r@ == s@;\n'),
     Ghost('\n} } // verus!\nfn main(){}\n', name='tail'),
 ])
